@@ -401,6 +401,11 @@ def listv_of(ip, st, v):
         return list(v.parts)
     if isinstance(v, X.Sym):
         t = v.term
+        if ip.written(st, v):
+            # elements were overwritten: the content is the updated object, not the original term
+            t = ip.to_term(st, v)
+            T.typed(('len', t), 'usize')
+            st.assume(T.mk_cmp('eq', ('len', t), ('len', v.term)))
         if t[0] == 'slice':
             return [('slice', t[1], t[2], t[3])]
         return [('slice', t, I(0), T.typed(('len', t), 'usize'))]
@@ -468,8 +473,8 @@ def s_into_iter(ip, st, fr, name, args, c, site):
     if isinstance(v, X.Ref):
         return one(mk_iter(ip, st, v))
     if isinstance(v, X.Sym):
-        # generic `impl IntoIterator` parameter: opaque finite stream
-        return one(X.Iter(ref_to(X.Sym(('items', v.term), '[?]')), I(0), T.typed(('len', ('items', v.term)), 'usize'), ('owned',)))
+        # generic `impl IntoIterator` parameter / user-defined iterator: opaque finite stream of items
+        return one(X.Iter(ref_to(X.Sym(('items', v.term), '[%s]' % item_type(v.ty, c))), I(0), T.typed(('len', ('items', v.term)), 'usize'), ('owned',)))
     if isinstance(v, X.ListV):
         return one(X.Iter(ref_to(v), I(0), ip.len_of(st, v), ('owned',)))
     raise X.Unanalysable('into_iter of %r' % (v,))
@@ -612,13 +617,27 @@ def s_all_any(ip, st, fr, name, args, c, site):
     return one(q)
 
 
+def item_type(ty, c=None):
+    """Item type of an opaque iterator type string (`impl Iterator<Item = T>`), '?' when unknown"""
+    m = re.search(r'Item = ([^>,]+(?:<[^<>]*>)?)', ty or '')
+    if m:
+        return m.group(1).strip()
+    m = re.match(r"^std::iter::(?:Copied|Cloned)<std::slice::Iter<'_?[a-z]*, (.*)>>$", ty or '')
+    if m:
+        return m.group(1).strip()
+    m = re.match(r"^std::slice::Iter<'_?[a-z]*, (.*)>$", ty or '')
+    if m:
+        return '&' + m.group(1).strip()
+    return '?'
+
+
 def as_iter(ip, st, v):
     """view an opaque (user-defined) iterator object as an abstract stream of its items"""
     if isinstance(v, X.Iter):
         return v
     if isinstance(v, X.Sym):
         t = ('items', v.term)
-        return X.Iter(ref_to(X.Sym(t, '[?]')), I(0), T.typed(('len', t), 'usize'), ('owned',))
+        return X.Iter(ref_to(X.Sym(t, '[%s]' % item_type(v.ty))), I(0), T.typed(('len', t), 'usize'), ('owned',))
     raise X.Unanalysable('not an iterator: %r' % (v,))
 
 
